@@ -256,6 +256,14 @@ def rule_r4(facts, rep, rid="C12-R4"):
         if node.get("k") == "lit" and node.get("v") == "bool:true":
             conds = [p for p in parents if p.get("k") == "if"]
             okx = any(any(y.get("k") == "lit" and y.get("v") == "s:exit" for y in fb.walk(p["c"])) for p in conds)
+            # the same decision as an arm of the method dispatch: `"exit" => return true`
+            child = node
+            for p in reversed(parents):
+                if p.get("k") == "match":
+                    for arm in p.get("arms", []):
+                        if any(y is child for y in fb.walk(arm["body"])) and fb.pat_variants(arm["pat"]) == ["lit:s:exit"]:
+                            okx = True
+                child = p
             trues.append(okx)
     if trues and all(trues):
         rep.ok(rid, n.def_ + "|only-exit-stops-the-loop", "", n.loc)
